@@ -8,7 +8,8 @@
 EXTENDS Order, RdataDom, TLC, Json
 
 CONSTANTS Tier,     \* 1 quick, 2 thorough: size of the name space
-          Dev
+          Dev,
+          Mut       \* model mutants of the carrier operators (MC_Order_mut*.cfg only)
 
 VARIABLES kind, t, a, b
 vars == <<kind, t, a, b>>
@@ -71,6 +72,101 @@ RecVals ==
   IN {[class |-> c, owner |-> o, ttl |-> l, code |-> CodeOf(d.t), t |-> d.t, val |-> d.val] :
         c \in {1, 3}, o \in {<<la>>, <<lA>>, <<lb, la>>}, l \in {0, 3600}, d \in datas}
 
+--------------------------------------------------------------------------
+(* carriers (Order.tla): every supported shape of holding a name, cut at    *)
+(* label positions j <= k                                                   *)
+NShapes == 24
+Sh(i, j, k, n) ==
+  LET L == Len(n)
+      lo == SubSeq(n, 1, j)
+      mid == SubSeq(n, j + 1, k)
+      hi == SubSeq(n, k + 1, L)
+      lok == SubSeq(n, 1, k)
+      rf(o, x) == <<"rflat", o, x>>
+      fl(o, x) == <<"flat", o, x>>
+      pa(h, x) == <<"parsed", [q \in 1..Len(x) |-> FALSE], h, x>>
+      ch(x, y) == <<"chain", x, y>>
+  IN CASE i = 1  -> fl("vec", n)
+       [] i = 2  -> fl("bytes", n)
+       [] i = 3  -> fl("array", n)
+       [] i = 4  -> fl("slice", n)
+       [] i = 5  -> <<"parsed", [q \in 1..L |-> q = j \/ q = k], 0, n>>
+       [] i = 6  -> <<"parsed", [q \in 1..L |-> q = k], 2, n>>
+       [] i = 7  -> ch(rf("vec", lok), fl("vec", hi))
+       [] i = 8  -> ch(rf("bytes", lok), fl("bytes", hi))
+       [] i = 9  -> ch(rf("slice", lok), fl("slice", hi))
+       [] i = 10 -> ch(rf("vec", lok), <<"parsed", [q \in 1..(L - k) |-> q = 1], 0, hi>>)
+       [] i = 11 -> ch(rf("vec", lo), ch(rf("vec", mid), fl("vec", hi)))
+       [] i = 12 -> ch(<<"rchain", rf("vec", lo), rf("vec", mid)>>, fl("vec", hi))
+       [] i = 13 -> ch(rf("bytes", lo), ch(rf("vec", mid), pa(0, hi)))
+       [] i = 14 -> <<"uchain", "vec", FALSE, lok, fl("vec", hi)>>
+       [] i = 15 -> <<"uchain", "vec", TRUE, n, fl("vec", hi)>>          \* origin not used
+       [] i = 16 -> <<"uchain", "bytes", FALSE, lok, pa(1, hi)>>
+       [] i = 17 -> <<"uchain", "bytes", TRUE, n, pa(0, lok)>>           \* origin not used
+       [] i = 18 -> <<"uchain", "vec", FALSE, lo, ch(rf("vec", mid), fl("vec", hi))>>
+       [] i = 19 -> <<"chainroot", rf("vec", n)>>
+       [] i = 20 -> <<"chainroot", <<"rchain", rf("vec", lok), rf("bytes", hi)>>>>
+       [] i = 21 -> <<"ref", fl("vec", n)>>
+       [] i = 22 -> <<"ref", <<"parsed", [q \in 1..L |-> q = k], 1, n>>>>
+       [] i = 23 -> <<"ref", ch(rf("vec", lok), fl("vec", hi))>>
+       [] i = 24 -> <<"ref", <<"ref", fl("vec", n)>>>>
+\* every rendering of a compressed name: any set of pointer positions
+Renderings(n) == {<<"parsed", cuts, h, n>> : cuts \in [1..Len(n) -> BOOLEAN], h \in 0..2}
+CarriersOf(n) ==
+  {Sh(i, jk[1], jk[2], n) : i \in 1..NShapes,
+                            jk \in {p \in (0..Len(n)) \X (0..Len(n)) : p[1] <= p[2]}} \cup Renderings(n)
+\* one carrier per shape, cut in the middle
+RepC(i, n) == Sh(i, Len(n) \div 2, (Len(n) + 1) \div 2, n)
+
+CLabels == IF Tier = 1 THEN {la, lA, lb} ELSE {la, lA, lb, lZ, ladotb}
+CNames == {<<>>, << <<42>>, lA >>, << <<42>> >>}
+          \cup {<<x>> : x \in CLabels} \cup {<<x, y>> : x \in CLabels, y \in CLabels}
+          \cup {<<x, y, z>> : x \in CLabels, y \in CLabels, z \in CLabels}
+PairNames == IF Tier = 1
+             THEN {<<>>} \cup {<<x>> : x \in {la, lA, lb}}
+                    \cup {<<x, y>> : x \in {la, lA, lb}, y \in {la, lA, lb}}
+                    \cup {<<la, lb, lA>>, <<lA, lb, la>>, <<lb, lA>>}
+             ELSE CNames
+\* which pairs of shapes go with a pair of names: all of them in turn
+PairPick(x, y, i, j) ==
+  LET salt == Len(x) + 2 * Len(y) + SumSeq([q \in 1..Len(x) |-> x[q][1]]) + SumSeq([q \in 1..Len(y) |-> 3 * y[q][1]])
+  IN IF Tier = 1 THEN (i + 5 * j + salt) % 23 = 0 ELSE (i + j + salt) % 3 = 0
+
+\* record data with names: the base value and variations of every name
+\* field, every name through every shape at every cut
+NameTypes == {x \in KnownTypes : NameIdx(x, Base(x)) # {}}
+CrdNames == IF Tier = 1 THEN {nRoot, nMixed, nMax} ELSE {nRoot, nAb, nMixed, nMax}
+CrdVars(x) == {v \in UNION {{[Base(x) EXCEPT ![i] = IF LayoutOf(x)[i].kind = "Name" THEN y ELSE [@ EXCEPT !.gw = y]]
+                               : y \in CrdNames} : i \in NameIdx(x, Base(x))}
+               : ValidRd(x, v)}
+CrdA(x) == {Base(x)} \cup CrdVars(x)
+\* the flat values a is compared with
+CrdB(x, u) == IF u = Base(x) \/ Tier = 2 THEN {Base(x), LowerNames(x, Base(x))} ELSE {Base(x)}
+Cuts2 == {<<0, 0>>, <<0, 1>>, <<1, 1>>, <<1, 2>>, <<2, 2>>, <<0, 2>>}
+Clip(q, n) == IF q > Len(n) THEN Len(n) ELSE q
+CarryAll(x, val, i, jk) ==
+  LET ns == NamesOfRd(x, val)
+  IN [q \in 1..Len(ns) |-> Sh(i, Clip(jk[1], ns[q]), Clip(jk[2], ns[q]), ns[q])]
+CrdCarriers(x, val) ==
+  IF Tier = 2 THEN {CarryAll(x, val, i, jk) : i \in 1..NShapes, jk \in Cuts2}
+  ELSE IF val = Base(x)
+  THEN {CarryAll(x, val, i, jk) : i \in 1..NShapes, jk \in {<<0, 1>>, <<1, 1>>, <<1, 2>>, <<0, 2>>}}
+  ELSE {CarryAll(x, val, i, jk) : i \in {7, 11, 12, 14, 15, 20, 23}, jk \in {<<1, 1>>, <<0, 2>>}}
+
+\* records: owner through a carrier, the names of the data through carriers
+CrecVals ==
+  LET datas == { [t |-> "A", val |-> Base("A")],
+                 [t |-> "NS", val |-> Base("NS")], [t |-> "NS", val |-> LowerAll("NS", Base("NS"))],
+                 [t |-> "SOA", val |-> Base("SOA")] }
+                 \cup (IF Tier = 2 THEN {[t |-> "MX", val |-> Base("MX")], [t |-> "RRSIG", val |-> Base("RRSIG")]} ELSE {})
+  IN {[class |-> 1, owner |-> o, ttl |-> 3600, code |-> CodeOf(d.t), t |-> d.t, val |-> d.val] :
+        o \in {<<lA>>, <<lb, lA>>} \cup (IF Tier = 2 THEN {<<lA, lb>>, <<>>} ELSE {}), d \in datas}
+CrecCarriers(r) ==
+  {[oc |-> Sh(i, Clip(jk[1], r.owner), Clip(jk[2], r.owner), r.owner),
+    cs |-> CarryAll(r.t, r.val, IF alt THEN 7 ELSE 1 + ((i + 11) % NShapes), jk)] :
+     i \in 1..NShapes, jk \in {<<0, 1>>, <<1, 1>>} \cup (IF Tier = 2 THEN {<<1, 2>>} ELSE {}),
+     alt \in IF Tier = 2 THEN BOOLEAN ELSE {FALSE}}
+
 \* the table as data, for the I->S recorder
 ASSUME PrintT("LAYOUT " \o ToJson([layout |-> Layout, code |-> TypeCode,
                                     optlayout |-> OptLayout, optcode |-> OptCode]))
@@ -81,6 +177,17 @@ Init ==
   \/ kind = "charstr" /\ t = "" /\ a \in CharStrs /\ b \in CharStrs
   \/ kind = "rdata"   /\ t \in Types /\ a \in RdVals(t) /\ b \in RdVals(t)
   \/ kind = "record"  /\ t = "" /\ a \in RecVals /\ b \in RecVals
+  \* a name and one of its carriers
+  \/ kind = "carrier" /\ t = "" /\ a \in CNames /\ b \in CarriersOf(a)
+  \* two carriers (of two names)
+  \/ kind = "cpair"   /\ t = "" /\ \E x, y \in PairNames, i, j \in 1..NShapes :
+                                       PairPick(x, y, i, j) /\ a = RepC(i, x) /\ b = RepC(j, y)
+  \* record data a with its names in carriers, against b held flat
+  \/ kind = "crdata"  /\ t \in NameTypes /\ \E u \in CrdA(t) : \E v \in CrdB(t, u), cs \in CrdCarriers(t, u) :
+                                       a = [val |-> u, cs |-> cs] /\ b = v
+  \* a record with owner and data names in carriers, against a flat record
+  \/ kind = "crecord" /\ t = "" /\ \E r, s \in CrecVals : \E c \in CrecCarriers(r) :
+                                       a = [r |-> r, oc |-> c.oc, cs |-> c.cs] /\ b = s
 Next == FALSE /\ UNCHANGED vars
 Spec == Init /\ [][Next]_vars
 
@@ -141,6 +248,29 @@ LawRecord == kind = "record" =>
   /\ (RecCanonPinned(a, b) /\ RecCanonCmp(a, b) = 0 => RecEqCore(a, b))
   /\ (RecCanonPinned(a, b) => IsSign(RecCanonCmp(a, b)))
 
+\* representation independence: whatever the carrier, the operators give what
+\* they give for the denoted name
+LawCarrier == kind = "carrier" =>
+  /\ WfAbs(b) /\ Denote(b) = a
+  /\ CarrierLawM(b, Mut)
+  /\ CarrierObs(b, Mut).canon = LowerSeq(CarrierObs(b, Mut).compose)
+  /\ CarrierObs(b, Mut).len = Len(CarrierObs(b, Mut).compose)
+LawCarrierPair == kind = "cpair" =>
+  /\ WfAbs(a) /\ WfAbs(b)
+  /\ (NamePairExp(Denote(a), Denote(b)).lcomposed
+        = LexCmp(CWire(a, TRUE, Mut), CWire(b, TRUE, Mut)))
+  /\ (NamePairExp(Denote(a), Denote(b)).composed
+        = LexCmp(CWire(a, FALSE, Mut), CWire(b, FALSE, Mut)))
+  /\ (NamePairExp(Denote(a), Denote(b)).eq <=> CWire(a, TRUE, Mut) = CWire(b, TRUE, Mut))
+LawCarriedRd == kind = "crdata" =>
+  /\ Carries(t, a.val, a.cs)
+  /\ CarriedRdLawM(t, a.val, a.cs, Mut)
+  \* the canonical order is the octet order of what the carriers compose
+  /\ CanonRdCmp(t, a.val, b) = LexCmp(RdWireC(t, a.val, a.cs, TRUE, Mut), CanonRd(t, b))
+LawCarriedRec == kind = "crecord" =>
+  /\ WfAbs(a.oc) /\ Denote(a.oc) = a.r.owner /\ Carries(a.r.t, a.r.val, a.cs)
+  /\ CarriedRecLawM(a.r, a.oc, a.cs, Mut)
+
 \* transitivity, evaluated once (in one designated state)
 Once == kind = "label" /\ a = <<0>> /\ b = <<0>>
 LeqT(c) == c <= 0
@@ -163,9 +293,7 @@ EmitLabel == kind = "label" =>
               hash_ok |-> TRUE, issues |-> <<>>]]))
 EmitName == kind = "name" =>
   PrintT("CASE " \o ToJson([in |-> [kind |-> kind, a |-> ToWireAbs(a), b |-> ToWireAbs(b)],
-     exp |-> [eq |-> NameEq(a, b), cmp |-> CanonNameCmp(a, b),
-              composed |-> NameComposedCmp(a, b), lcomposed |-> NameLowerComposedCmp(a, b),
-              hash_ok |-> TRUE, issues |-> <<>>]]))
+     exp |-> NamePairExp(a, b)]))
 EmitCharStr == kind = "charstr" =>
   PrintT("CASE " \o ToJson([in |-> [kind |-> kind, a |-> a, b |-> b],
      exp |-> [eq |-> CharStrEq(a, b), cmp0 |-> CharStrEq(a, b), canon |-> CharStrCanonCmp(a, b),
@@ -185,6 +313,22 @@ EmitRecord == kind = "record" =>
                                     eqfree |-> RecEqFree(a, b),
                                     canonfree |-> ~RecCanonPinned(a, b)],
                             exp |-> RecExp(a, b), dev |-> RecDev(a, b)]))
+
+EmitCarrier == kind = "carrier" =>
+  PrintT("CASE " \o ToJson([in |-> [kind |-> kind, c |-> b], exp |-> NameObs(a)]))
+EmitCarrierPair == kind = "cpair" =>
+  PrintT("CASE " \o ToJson([in |-> [kind |-> kind, a |-> a, b |-> b],
+                            exp |-> NamePairExp(Denote(a), Denote(b))]))
+EmitCarriedRd == kind = "crdata" =>
+  PrintT("CASE " \o ToJson([in |-> [kind |-> kind, rtype |-> CodeOf(t),
+                                    a |-> MsgOf(CodeOf(t), ComposeRd(t, a.val)), cs |-> a.cs,
+                                    b |-> MsgOf(CodeOf(t), ComposeRd(t, b)),
+                                    eqfree |-> RdEqFree(t, a.val, b)],
+                            exp |-> CrdExp(t, a.val, b), dev |-> CrdDev(t, a.val, b)]))
+EmitCarriedRec == kind = "crecord" =>
+  PrintT("CASE " \o ToJson([in |-> [kind |-> kind, a |-> RecIn(a.r), oc |-> a.oc, cs |-> a.cs,
+                                    b |-> RecIn(b), canonfree |-> ~RecCanonPinned(a.r, b)],
+                            exp |-> CrecExp(a.r, b)]))
 
 \* the deviation as a statement about the model (MC_Order_dev.cfg): a hash
 \* key that includes the TTL does not respect an == that ignores it
